@@ -103,8 +103,8 @@ PROPS = {
         level="other",
         technique="frame contracts (no header field changes) on RawChunk::prepare_allocation(_range), Verus/Kani contracts on bump_prepare_*, prepare+fill+commit contracts on the typed slice methods and on MutBumpVec/MutBumpVecRev, commit contract of alloc_try_with_mut",
         claim="prepare_allocation(_range) change no header field and return the largest aligned sub-range of the free part of the current chunk (kernel proved by Verus for all inputs; glue bounded). try_prepare_slice_allocation(_rev) + filling + allocate_prepared_slice(_rev), and MutBumpVec / MutBumpVecRev push / drop / into_slice: the position never moves while filling or when dropped unfinalised; finalising yields exactly the pushed elements (reversed order of pushing for rev) and advances the position by the contents plus padding below max(element align, MIN_ALIGN). alloc_try_with_mut commits exactly the value.",
-        note="MutBumpVec / MutBumpVecRev: try_push (with growth inside one chunk), drop unfinalised, into_slice are under contract for u16 and <=3 pushes; prepare/commit of typed slices forward and reverse through the trait methods likewise. MutBumpString, filling that continues in a bigger chunk, zero-sized elements and the *_mut iterator/format helpers are NOT covered.",
-        not_covered=["MutBumpString; filling that outgrows the current chunk (covered only through the slow-path contracts of C01)", "alloc_iter_mut(_rev), alloc_fmt_mut, alloc_cstr_fmt_mut, iterators with wrong size hints", "zero-sized elements", "clauses about exits by unwinding / panics injected in callbacks (neither verifier has unwinding semantics)"],
+        note="MutBumpVec / MutBumpVecRev: try_push (with growth inside one chunk), drop unfinalised, into_slice are under contract for u16 and <=3 pushes; prepare/commit of typed slices forward and reverse through the trait methods likewise. Against the allocator contract stub (h_stub): MutBumpVec / MutBumpVecRev / MutBumpString growth into a newer region (served / refused / new region refused), zero-sized elements, alloc_iter_mut(_rev) incl. wrong size hints. Over the real arena: MutBumpVec::map_in_place + into_slice (one recorded finding for the downward direction, known_findings.txt). alloc_fmt_mut / alloc_cstr_fmt_mut are NOT covered (core::fmt).",
+        not_covered=["filling that outgrows the current chunk over the REAL arena (covered against the contract stub and through the slow-path contracts of C01)", "alloc_fmt_mut, alloc_cstr_fmt_mut (core::fmt exhausts CBMC)", "clauses about exits by unwinding / panics injected in callbacks (neither verifier has unwinding semantics)"],
     ),
     "C18": dict(
         level="other",
